@@ -110,6 +110,9 @@ func main() {
 	timeLimit := fs.Int("timelimit", 0, "seconds per harness (0 = none)")
 	boundsFlag := fs.String("bounds", "", "harness bounds name=value,... (vrtBound)")
 	cpuprof := fs.String("cpuprofile", "", "write a CPU profile")
+	dumpDir := fs.String("dumpobl", "", "directory for sampled obligation scripts (cross-solver comparison)")
+	dumpEvery := fs.Int("dumpevery", 10, "dump every n-th obligation per worker")
+	dumpMax := fs.Int("dumpmax", 12, "at most this many scripts per worker and harness")
 	fs.Parse(os.Args[2:])
 
 	debug.SetGCPercent(800) // paths allocate large short-lived heaps (ring buffers as cell arrays)
@@ -166,6 +169,7 @@ func main() {
 	ro := &RunOutput{Pkg: *pkg, LoadSec: loadSec, Config: map[string]any{
 		"unwind": *unwind, "maxsteps": *maxSteps, "alloc_ceiling": *ceiling, "workers": *workers, "query_timeout_ms": *qt,
 		"sched": *sched, "preempt": *preempt, "maxpaths": *maxPaths, "maxconcr": *maxConcr, "reverse_maps": *revMaps, "race": *race}}
+	cfg.DumpDir, cfg.DumpEvery, cfg.DumpMax = *dumpDir, *dumpEvery, *dumpMax
 	cfg.Bounds = map[string]int64{}
 	for _, kv := range strings.Split(*boundsFlag, ",") {
 		if kv == "" {
